@@ -10,7 +10,7 @@
 //! `weighted_sum - rho`), `label_sign`, `platt_function`, `platt_monotone`, `platt_range`, `nsupport`,
 //! `display`, `hyperparams`, `terminates`, `no_panic`.
 use crate::util::*;
-use linfa::composing::platt_scaling::platt_predict;
+use linfa::composing::platt_scaling::{platt_newton_method, platt_predict};
 use linfa::dataset::{CountedTargets, DatasetBase, Pr};
 use linfa::traits::{Fit, Predict, PredictInplace};
 use linfa::ParamGuard;
@@ -85,6 +85,8 @@ struct FitCase {
     form: u8,
     /// regression setter: 0 explicit `Some(..)`, 1 default `None`, 2 deprecated `c_eps` / `nu_eps`
     setter: u8,
+    /// nu-SVC with nu > 2 min(n+, n-) / n: the dual has no feasible point, `fit` must refuse
+    infeasible: bool,
 }
 
 struct Fitted {
@@ -98,6 +100,9 @@ struct Fitted {
     labels: Option<Vec<bool>>,
     probs: Option<Vec<f32>>,
     platt: Option<(f64, f64)>,
+    /// Platt coefficients recomputed with linfa's public `platt_newton_method` from the decision values of the
+    /// training rows, the training labels and the model's own Platt parameters
+    platt_want: Option<Result<(f64, f64), String>>,
     /// entry points whose result differs from the single-row reference
     forms: Vec<String>,
     /// accessor values of the checked parameter set that differ from the documented meaning of the setter
@@ -234,14 +239,23 @@ macro_rules! impl_run_fit {
                         let p = class_params!(Pr);
                         let m: Svm<F, Pr> = class_fit!(p).map_err(|e| format!("{:?}", e))?;
                         let dec: Vec<f64> = all.outer_iter().map(|r| to64(m.weighted_sum(&r) - m.rho)).collect();
+                        // what "calibrated" means: (A, B) is the Platt fit of the training decision values to the labels
+                        let dtrain: Array1<F> = rec.outer_iter().map(|r| m.weighted_sum(&r) - m.rho).collect();
+                        let platt_want: Result<(f64, f64), String> = match p.check_ref() {
+                            Ok(v) => match v.platt_params().check_ref() {
+                                Ok(pp) => platt_newton_method(dtrain.view(), yb.view(), pp).map(|(a, b)| (to64(a), to64(b))).map_err(|e| format!("{:?}", e)),
+                                Err(e) => Err(format!("{:?}", e)),
+                            },
+                            Err(e) => Err(format!("{:?}", e)),
+                        };
                         let probs: Vec<Pr> = predict_forms!(F, Pr, m, &all, |o: &Pr| (**o).to_bits() as u64, forms);
-                        Ok(Fitted { alpha: m.alpha.iter().map(|v| to64(*v)).collect(), rho: to64(m.rho), nsupport: m.nsupport(), display: format!("{}", m), sol: solved(&m), dec, labels: None, probs: Some(probs.iter().map(|p| **p).collect()), platt: platt_coeffs(&m), forms, params })
+                        Ok(Fitted { alpha: m.alpha.iter().map(|v| to64(*v)).collect(), rho: to64(m.rho), nsupport: m.nsupport(), display: format!("{}", m), sol: solved(&m), dec, labels: None, probs: Some(probs.iter().map(|p| **p).collect()), platt: platt_coeffs(&m), platt_want: Some(platt_want), forms, params })
                     } else {
                         let p = class_params!(bool);
                         let m: Svm<F, bool> = class_fit!(p).map_err(|e| format!("{:?}", e))?;
                         let dec: Vec<f64> = all.outer_iter().map(|r| to64(m.weighted_sum(&r) - m.rho)).collect();
                         let labels: Vec<bool> = predict_forms!(F, bool, m, &all, |o: &bool| *o as u64, forms);
-                        Ok(Fitted { alpha: m.alpha.iter().map(|v| to64(*v)).collect(), rho: to64(m.rho), nsupport: m.nsupport(), display: format!("{}", m), sol: solved(&m), dec, labels: Some(labels), probs: None, platt: None, forms, params })
+                        Ok(Fitted { alpha: m.alpha.iter().map(|v| to64(*v)).collect(), rho: to64(m.rho), nsupport: m.nsupport(), display: format!("{}", m), sol: solved(&m), dec, labels: Some(labels), probs: None, platt: None, platt_want: None, forms, params })
                     }
                 }
                 Mode::OneClass(nu) => {
@@ -259,7 +273,7 @@ macro_rules! impl_run_fit {
                     .map_err(|e| format!("{:?}", e))?;
                     let dec: Vec<f64> = all.outer_iter().map(|r| to64(m.weighted_sum(&r) - m.rho)).collect();
                     let labels: Vec<bool> = predict_forms!(F, bool, m, &all, |o: &bool| *o as u64, forms);
-                    Ok(Fitted { alpha: m.alpha.iter().map(|v| to64(*v)).collect(), rho: to64(m.rho), nsupport: m.nsupport(), display: format!("{}", m), sol: solved(&m), dec, labels: Some(labels), probs: None, platt: None, forms, params })
+                    Ok(Fitted { alpha: m.alpha.iter().map(|v| to64(*v)).collect(), rho: to64(m.rho), nsupport: m.nsupport(), display: format!("{}", m), sol: solved(&m), dec, labels: Some(labels), probs: None, platt: None, platt_want: None, forms, params })
                 }
                 Mode::EpsSvr(_, _) | Mode::NuSvr(_, _) => {
                     let yr: Array1<F> = Array1::from(fc.yr.iter().map(|v| c(*v)).collect::<Vec<F>>());
@@ -299,7 +313,7 @@ macro_rules! impl_run_fit {
                     if let Some(i) = (0..dec.len()).find(|i| to64(pred[*i]).to_bits() != dec[*i].to_bits()) {
                         forms.push(format!("predict(row) = {} but weighted_sum(row) - rho = {} at point {}", pred[i], dec[i], i));
                     }
-                    Ok(Fitted { alpha: m.alpha.iter().map(|v| to64(*v)).collect(), rho: to64(m.rho), nsupport: m.nsupport(), display: format!("{}", m), sol: solved(&m), dec, labels: None, probs: None, platt: None, forms, params })
+                    Ok(Fitted { alpha: m.alpha.iter().map(|v| to64(*v)).collect(), rho: to64(m.rho), nsupport: m.nsupport(), display: format!("{}", m), sol: solved(&m), dec, labels: None, probs: None, platt: None, platt_want: None, forms, params })
                 }
             }
         }
@@ -348,6 +362,10 @@ fn op_fit(em: &mut Em, rng: &mut Rng, n: usize) {
         2 | 3 => Kern::Gauss(*rng.pick(&[0.5, 2.0, 4.0, 32.0, 100.0])),
         _ => Kern::Poly(*rng.pick(&[0.0, 0.5, 1.0, 2.0]), *rng.pick(&[1.0, 2.0, 2.0, 3.0])),
     };
+    // one-class fits with a degree-1 polynomial kernel and a non-zero constant: the only public configuration in
+    // which `weighted_sum` of a kernel wrongly treated as linear is off (by c * sum alpha = c nu n)
+    let force_poly1 = rng.chance(1, 12);
+    let kern = if force_poly1 { Kern::Poly(*rng.pick(&[0.5, 1.0, 2.0]), 1.0) } else { kern };
     // regression target: smooth function of the coordinates + lattice noise
     let yr: Vec<f64> = x.iter().map(|r| 0.5 * r[0] - 0.25 * r[d - 1] + rng.range(-2, 2) as f64 / 8.0).collect();
     // badly scaled combinations (cubic kernels, thousands of points) with a huge C run into the
@@ -360,7 +378,8 @@ fn op_fit(em: &mut Em, rng: &mut Rng, n: usize) {
         (lo + rng.unit() * (hi - lo)).exp()
     };
     let setter = *rng.pick(&[0u8, 0, 0, 1, 2]);
-    let mode = match rng.below(8) {
+    let mut infeasible = false;
+    let mode = match if force_poly1 { 4 } else { *rng.pick(&[0usize, 1, 2, 3, 3, 4, 5, 6, 7]) } {
         0 | 1 | 2 => {
             let a = logc(rng);
             let b = if rng.chance(2, 3) { logc(rng) } else { a };
@@ -370,7 +389,14 @@ fn op_fit(em: &mut Em, rng: &mut Rng, n: usize) {
             // nu-SVC is feasible iff nu <= 2 min(n+, n-) / n (libsvm rejects the rest up front)
             let npos = yb.iter().filter(|v| **v).count();
             let lim = 2.0 * (npos.min(n - npos) as f64) / n as f64;
-            Mode::Nu(*rng.pick(&[0.05, 0.2, 0.5, 0.8]) * lim)
+            if lim < 0.9 && rng.chance(1, 2) {
+                // inside the statement's quantifier (nu in (0,1], imbalanced data) but without a feasible point:
+                // sum_i y_i alpha_i = 0 and e'alpha = nu n cannot both hold with 0 <= alpha_i <= 1
+                infeasible = true;
+                Mode::Nu(lim + (1.0 - lim) * *rng.pick(&[0.25, 0.5, 1.0]))
+            } else {
+                Mode::Nu(*rng.pick(&[0.05, 0.2, 0.5, 0.8]) * lim)
+            }
         }
         4 => Mode::OneClass(*rng.pick(&[0.05, 0.3, 0.7, 1.0])),
         5 | 6 => {
@@ -394,11 +420,12 @@ fn op_fit(em: &mut Em, rng: &mut Rng, n: usize) {
         Mode::OneClass(_) => *rng.pick(&[0u8, 1, 2, 3, 4]),
         _ => *rng.pick(&[0u8, 0, 1, 2]),
     };
-    let fc = FitCase { x, q, yb, yr, kern, mode, eps, shrinking, f32_, platt, form, setter };
+    let fc = FitCase { x, q, yb, yr, kern, mode, eps, shrinking, f32_, platt, form, setter, infeasible };
     let class = format!("fit:{}:shrink={}", mode.name(), shrinking as u8);
     let unequal = matches!(mode, Mode::C(a, b) if a != b);
     let class = if unequal { format!("{}:weights=unequal", class) } else { class };
-    em.count(&format!("fit:{}", mode.name()));
+    let class = if infeasible { format!("{}:nu=infeasible", class) } else { class };
+    em.count(&format!("fit:{}{}", mode.name(), if infeasible { ":infeasible" } else { "" }));
     em.count(&format!("fit:kernel={}", kern.name()));
     em.count(&format!("fit:shrink={}", shrinking as u8));
     em.count(&format!("fit:shape={}", shape_name));
@@ -408,13 +435,17 @@ fn op_fit(em: &mut Em, rng: &mut Rng, n: usize) {
         em.count(&format!("fit:setter={}", setter));
     }
     em.count(if f32_ { "fit:f32" } else { "fit:f64" });
+    if platt && matches!(mode, Mode::C(_, _) | Mode::Nu(_)) && !infeasible {
+        em.count("fit:platt_asked");
+    }
     let op = format!(
-        "#fit n={} d={} shape={} kernel={:?} mode={:?} eps={} shrink={} f32={} platt={} form={} setter={} x={} q={}",
+        "#fit n={} d={} shape={} kernel={:?} mode={:?} infeasible={} eps={} shrink={} f32={} platt={} form={} setter={} x={} q={}",
         n,
         d,
         shape_name,
         kern,
         mode,
+        infeasible as u8,
         eps,
         shrinking as u8,
         f32_ as u8,
@@ -433,6 +464,32 @@ fn op_fit(em: &mut Em, rng: &mut Rng, n: usize) {
             std::panic::set_hook(Box::new(|i| eprintln!("PANIC {}", i)));
         }
         let ft = if fc.f32_ { run_fit_f32(&fc) } else { run_fit_f64(&fc) };
+        if fc.infeasible {
+            // no coefficient vector satisfies both equality constraints: the only outcome consistent with the
+            // statement is a refusal (libsvm: "specified nu is infeasible")
+            match &ft {
+                Err(e) if e.starts_with("InvalidNu") => {
+                    ctx.mark_trivial();
+                    outcome = "infeasible_refused";
+                    return "-".to_string();
+                }
+                Err(_) => {}
+                Ok(ft) => {
+                    let s: f64 = ft.alpha.iter().sum();
+                    let sa: f64 = ft.alpha.iter().map(|v| v.abs()).sum();
+                    let fe = if fc.f32_ { f32::EPSILON as f64 } else { f64::EPSILON };
+                    let nn = fc.x.len() as f64;
+                    let r = ft.sol.r.unwrap_or(f64::NAN);
+                    let want = match fc.mode {
+                        Mode::Nu(nu) => (if fc.f32_ { (nu as f32) as f64 } else { nu }) * nn,
+                        _ => f64::NAN,
+                    };
+                    // published alpha = alpha_raw / r: y'alpha = 0 and e'alpha_raw = nu n
+                    let ok = s.abs() <= 64.0 * fe * (1.0 + sa) * nn.sqrt() && r.is_finite() && r > 0.0 && (sa * r - want).abs() <= 64.0 * fe * (1.0 + want) * nn.sqrt() + 1e-3 * fe.sqrt() * want;
+                    ctx.require(ok, "equality", &class, || format!("a model was published for an infeasible nu ({:?}, {} of {} samples positive): sum of y_i alpha_i = {}, sum |alpha| * r = {} * {} but nu n = {} (rho = {}, {} support vectors)", fc.mode, fc.yb.iter().filter(|v| **v).count(), fc.x.len(), s, sa, r, want, ft.rho, ft.nsupport));
+                }
+            }
+        }
         let ft = match ft {
             Ok(ft) => ft,
             Err(e) => {
@@ -499,6 +556,26 @@ fn oracle_fit(ctx: &mut Ctx, fc: &FitCase, ft: &Fitted, class: &str) -> &'static
         // nu-SVC publishes alpha / r; when the optimal margin r is (numerically) zero the scaled
         // problem has no finite solution (libsvm divides by r as well) — degenerate, not judged
         if !(amax * kmax_train <= 1e6) || !(amax * fc.eps <= 0.05) || !ft.rho.is_finite() {
+            // the margin clauses cannot be judged (the solver tolerance, divided by r, exceeds the margin); what does
+            // not depend on the tolerance still holds whenever r is a positive number: signs, the bound 1/r, both
+            // equality constraints
+            if let Some(r) = ft.sol.r {
+                if r.is_finite() && r > 0.0 && a.iter().all(|v| v.is_finite()) {
+                    let c = 1.0 / r;
+                    let sa: f64 = a.iter().map(|v| v.abs()).sum();
+                    let s: f64 = a.iter().sum();
+                    for i in 0..n {
+                        let al = if fc.yb[i] { a[i] } else { -a[i] };
+                        ctx.require(al >= 0.0 && al <= c * (1.0 + 4.0 * fe), "box", class, || format!("(margin below the tolerance) sample {}: coefficient {} outside [0, 1/r = {}]", i, al, c));
+                    }
+                    ctx.require(s.abs() <= 64.0 * fe * (1.0 + sa) * (n as f64).sqrt(), "equality", class, || format!("(margin below the tolerance) sum of y_i alpha_i = {} (sum |alpha| = {})", s, sa));
+                    if let Mode::Nu(nu) = fc.mode {
+                        let want = (if fc.f32_ { (nu as f32) as f64 } else { nu }) * n as f64;
+                        ctx.require((sa * r - want).abs() <= 64.0 * fe * (1.0 + want) * (n as f64).sqrt() + 1e-3 * fe.sqrt() * want, "equality", class, || format!("(margin below the tolerance) sum |alpha| * r = {} but nu n = {}", sa * r, want));
+                    }
+                    return "degenerate";
+                }
+            }
             ctx.mark_trivial();
             return "degenerate";
         }
@@ -525,6 +602,15 @@ fn oracle_fit(ctx: &mut Ctx, fc: &FitCase, ft: &Fitted, class: &str) -> &'static
                 let want = if fc.f32_ { *platt_predict(ft.dec[i] as f32, pa as f32, pb as f32) } else { *platt_predict(ft.dec[i], pa, pb) };
                 ctx.require(want.to_bits() == pr[i].to_bits(), "platt_function", class, || format!("point {}: probability {} but the Platt sigmoid of its decision value {} is {}", i, pr[i], ft.dec[i], want));
             }
+        }
+        // calibrated: (A, B) is the Platt fit (linfa's public platt_newton_method, the model's own Platt parameters)
+        // of the decision values weighted_sum - rho of the training rows to the training labels
+        match (&ft.platt_want, ft.platt) {
+            (Some(Ok((wa, wb))), Some((pa, pb))) => {
+                ctx.require(wa.to_bits() == pa.to_bits() && wb.to_bits() == pb.to_bits(), "platt_calibration", class, || format!("stored Platt coefficients ({}, {}) are not the Platt fit ({}, {}) of the training decision values to the labels", pa, pb, wa, wb));
+            }
+            (Some(Err(e)), Some(_)) => ctx.fail("platt_calibration", class, format!("a calibrated model although the Platt fit of its decision values fails with {}", e)),
+            _ => {}
         }
         let mut idx: Vec<usize> = (0..ft.dec.len()).filter(|i| !ft.dec[*i].is_nan()).collect();
         idx.sort_by(|u, v| ft.dec[*u].partial_cmp(&ft.dec[*v]).unwrap());
@@ -585,7 +671,7 @@ fn oracle_fit(ctx: &mut Ctx, fc: &FitCase, ft: &Fitted, class: &str) -> &'static
                 let ys = if fc.yb[i] { 1.0 } else { -1.0 };
                 let al = ys * a[i];
                 s += a[i];
-                ctx.require(al >= 0.0 && al <= c, "box", class, || format!("sample {} (y {}): coefficient {} outside [0,{}]", i, ys, al, c));
+                ctx.require(al >= 0.0 && al <= c, super::box_clause(al, 0.0, c, cast(cp.max(cn)), fe), class, || format!("sample {} (y {}): coefficient {:e} outside [0,{:e}]", i, ys, al, c));
                 let yf = ys * f[i];
                 if al < c - delta(c) {
                     worst = worst.max(1.0 - yf);
@@ -630,7 +716,7 @@ fn oracle_fit(ctx: &mut Ctx, fc: &FitCase, ft: &Fitted, class: &str) -> &'static
             let mut s = 0.0;
             for i in 0..n {
                 s += a[i];
-                ctx.require(a[i] >= 0.0 && a[i] <= 1.0, "box", class, || format!("sample {}: coefficient {} outside [0,1]", i, a[i]));
+                ctx.require(a[i] >= 0.0 && a[i] <= 1.0, super::box_clause(a[i], 0.0, 1.0, 1.0, fe), class, || format!("sample {}: coefficient {:e} outside [0,1]", i, a[i]));
                 if a[i] < 1.0 - delta(1.0) {
                     worst = worst.max(-f[i]);
                     ctx.require(f[i] >= -tol, "kkt_margin", class, || format!("sample {} with alpha {} < 1 has decision {} < 0", i, a[i], f[i]));
@@ -649,7 +735,7 @@ fn oracle_fit(ctx: &mut Ctx, fc: &FitCase, ft: &Fitted, class: &str) -> &'static
             let mut s = 0.0;
             for i in 0..n {
                 s += a[i];
-                ctx.require(a[i].abs() <= c, "box", class, || format!("sample {}: coefficient {} outside [-{},{}]", i, a[i], c, c));
+                ctx.require(a[i].abs() <= c, super::box_clause(a[i], -c, c, c, fe), class, || format!("sample {}: coefficient {:e} outside [-{:e},{:e}]", i, a[i], c, c));
                 let res = cast(fc.yr[i]) - f[i];
                 let ytol = tol + 16.0 * fe * fc.yr[i].abs();
                 // alpha_i - alpha*_i < C  => (alpha_i not at upper or alpha*_i > 0) : res <= eps
@@ -677,14 +763,11 @@ fn oracle_fit(ctx: &mut Ctx, fc: &FitCase, ft: &Fitted, class: &str) -> &'static
             let mut s = 0.0;
             for i in 0..n {
                 s += a[i];
-                ctx.require(a[i].abs() <= c, "box", class, || format!("sample {}: coefficient {} outside [-{},{}]", i, a[i], c, c));
+                ctx.require(a[i].abs() <= c, super::box_clause(a[i], -c, c, c, fe), class, || format!("sample {}: coefficient {:e} outside [-{:e},{:e}]", i, a[i], c, c));
             }
             ctx.require(s.abs() <= 64.0 * fe * (1.0 + sumabs) * (n as f64).sqrt(), "equality", class, || format!("sum of coefficients = {}", s));
             // second constraint of the nu-SVR dual: e'(alpha + alpha*) <= C nu n, and sum|alpha_i - alpha*_i| <= e'(alpha + alpha*)
             let nu_ = cast(nu);
-            ctx.require(sumabs <= c * nu_ * n as f64 * (1.0 + 1e-6) + 64.0 * fe * (1.0 + sumabs), "nu_constraint", class, || {
-                format!("sum |coefficient| = {} exceeds C nu n = {} (C {} nu {} n {}): nu does not constrain the solution", sumabs, c * nu_ * n as f64, c, nu_, n)
-            });
             // tube width is a free variable of nu-SVR: all free vectors must share one |residual| = eps >= 0,
             // zero coefficients lie within it, bounded ones on or outside it
             let mut lo = 0.0f64; // eps >= lo
@@ -708,6 +791,14 @@ fn oracle_fit(ctx: &mut Ctx, fc: &FitCase, ft: &Fitted, class: &str) -> &'static
             }
             worst = worst.max((lo - hi) / 2.0);
             ctx.require(lo <= hi + 2.0 * tol, "kkt_residual", class, || format!("no tube width fits: needs eps >= {} and eps <= {} (tolerance {})", lo, hi, 2.0 * tol));
+            // the listed defect (the solver runs without the nu constraint) has a signature: the result is the eps-SVR
+            // solution for eps = 0, i.e. the tube width the residuals demand is zero.  A violated sum constraint with a
+            // positive tube width is something else (e.g. a wrong constant in a repair) and is reported on its own.
+            if !(sumabs <= c * nu_ * n as f64 * (1.0 + 1e-6) + 64.0 * fe * (1.0 + sumabs)) {
+                let zero_tube = lo <= 2.0 * tol + 16.0 * fe * fc.yr.iter().fold(0.0f64, |m, v| m.max(v.abs()));
+                let clause = if zero_tube { "nu_constraint" } else { "nu_constraint_positive_tube" };
+                ctx.fail(clause, class, format!("sum |coefficient| = {} exceeds C nu n = {} (C {} nu {} n {}): nu does not constrain the solution (tube width demanded by the residuals: {})", sumabs, c * nu_ * n as f64, c, nu_, n, lo));
+            }
         }
     }
     if std::env::var("C13_CALIB").is_ok() {
@@ -717,8 +808,56 @@ fn oracle_fit(ctx: &mut Ctx, fc: &FitCase, ft: &Fitted, class: &str) -> &'static
     "judged"
 }
 
+/// the guards the theorems' hypotheses rest on (`eps >= 0`, `C > 0`, `nu in (0, 1]`): `SvmParams::check_ref`
+/// must refuse exactly the parameter sets outside them (enumerated, f64 and f32)
+fn op_guards(em: &mut Em) {
+    fn verdict<T>(r: std::result::Result<T, linfa_svm::SvmError>) -> String {
+        match r {
+            Ok(_) => "ok".to_string(),
+            Err(e) => {
+                let d = format!("{:?}", e);
+                d.split('(').next().unwrap_or("").to_string()
+            }
+        }
+    }
+    macro_rules! guards {
+        ($t:ty, $tn:expr) => {{
+            let vals: [f64; 9] = [-1.0, -0.0, 0.0, 1e-3, 0.5, 1.0, 1.5, f64::INFINITY, f64::NAN];
+            for &v in &vals {
+                let x = v as $t;
+                let finite_pos = v > 0.0 && v.is_finite();
+                // (setter, value, what check_ref must answer)
+                let eps_want = if v.is_nan() || v.is_infinite() || v.is_sign_negative() { "InvalidEps" } else { "ok" };
+                let c_want = if v <= 0.0 { "InvalidC" } else { "ok" };
+                let nu_want = if v <= 0.0 || v > 1.0 { "InvalidNu" } else { "ok" };
+                let cases: Vec<(&str, String, &str)> = vec![
+                    ("eps", verdict(Svm::<$t, bool>::params().eps(x).check_ref().map(|_| ())), eps_want),
+                    ("pos_neg_weights(v,1)", verdict(Svm::<$t, bool>::params().pos_neg_weights(x, 1.0).check_ref().map(|_| ())), c_want),
+                    ("pos_neg_weights(1,v)", verdict(Svm::<$t, bool>::params().pos_neg_weights(1.0, x).check_ref().map(|_| ())), c_want),
+                    ("nu_weight", verdict(Svm::<$t, bool>::params().nu_weight(x).check_ref().map(|_| ())), nu_want),
+                    ("c_svr(v,None)", verdict(Svm::<$t, $t>::params().c_svr(x, None).check_ref().map(|_| ())), c_want),
+                    ("nu_svr(v,None)", verdict(Svm::<$t, $t>::params().nu_svr(x, None).check_ref().map(|_| ())), nu_want),
+                    ("nu_svr(0.5,Some(v))", verdict(Svm::<$t, $t>::params().nu_svr(0.5, Some(x)).check_ref().map(|_| ())), c_want),
+                ];
+                let _ = finite_pos;
+                for (what, got, want) in cases {
+                    em.count(&format!("guard:{}", want));
+                    let class = format!("guard:{}:{}", what, $tn);
+                    em.case(format!("#guard f={} setter={} value={}", $tn, what, v), |ctx| {
+                        ctx.require(got == want, "param_guard", &class, || format!("{} with value {} ({}): check_ref answers {} but the guard the theorems assume demands {}", what, v, $tn, got, want));
+                        "-".to_string()
+                    });
+                }
+            }
+        }};
+    }
+    guards!(f64, "f64");
+    guards!(f32, "f32");
+}
+
 pub(super) fn run(em: &mut Em, rng: &mut Rng) {
     let thorough = em.thorough();
+    op_guards(em);
     let nfit = if thorough { 800 } else { 250 };
     for t in 0..nfit {
         let n = if thorough {
@@ -734,4 +873,26 @@ pub(super) fn run(em: &mut Em, rng: &mut Rng) {
         };
         op_fit(em, rng, n);
     }
+    // ---- ceilings on the outcomes that are counted but not judged (a sink may not swallow the fits):
+    // allowed = b + 4 sqrt(b) + 2 with b = baseline fraction (seeds 1-5, unchanged tree) of the fits that can end there
+    let sum = |em: &Em, pre: &str| -> u64 { em.dist.iter().filter(|(k, _)| k.starts_with(pre)).map(|(_, v)| *v).sum() };
+    let all = sum(em, "fit_outcome:");
+    let nu_svc: u64 = em.dist.iter().filter(|(k, _)| k.starts_with("fit_outcome:") && k.ends_with(":nu_svc") && !k.contains("infeasible")).map(|(_, v)| *v).sum();
+    let platt_fits = sum(em, "fit:platt_asked");
+    for (outcome, of, base) in [("cap", all, CEIL_CAP), ("degenerate", nu_svc, CEIL_DEGENERATE), ("platt_refused", platt_fits, CEIL_PLATT_REFUSED)] {
+        let cnt = sum(em, &format!("fit_outcome:{}:", outcome));
+        let b = base * of as f64;
+        let allowed = (b + 4.0 * b.sqrt() + 2.0).floor() as u64;
+        em.count_n(&format!("ceiling:{}:count", outcome), cnt);
+        em.count_n(&format!("ceiling:{}:allowed", outcome), allowed);
+        em.case(format!("#ceiling outcome={} count={} of={} allowed={}", outcome, cnt, of, allowed), |ctx| {
+            ctx.require(cnt <= allowed, "mask_ceiling", &format!("fit:{}", outcome), || format!("{} of {} fits ended as '{}' (counted, not judged); the unchanged tree gives a fraction of {} and at most {} are tolerated", cnt, of, outcome, base, allowed));
+            "-".to_string()
+        });
+    }
 }
+
+/// baseline fractions of the unjudged outcomes on the unchanged tree (seeds 1-5, both tiers; see notes/C13.md)
+const CEIL_CAP: f64 = 0.0;
+const CEIL_DEGENERATE: f64 = 0.30;
+const CEIL_PLATT_REFUSED: f64 = 0.05;
